@@ -1,4 +1,6 @@
-(* C07 - references resolve to the right object, on load and on save.  Statements only. *)
+(* C07 - references resolve to the right object, on load and on save.
+   Statements only; proofs are in Proofs/Refs.v.  [load_order], [lookups] and [dcls_base] are
+   GENERATED from the Python source (Gen/Params.v). *)
 From Coq Require Import List Bool NArith Permutation.
 From PC Require Import Base.Outcome Base.Py Base.Libs Gen.Params Model.IndexedList Model.Errors Model.Refs
      Proofs.Errors Proofs.Refs.
@@ -14,3 +16,144 @@ Proof.
   apply orb_true_iff in D. destruct D as [D|D]; [left; apply lib_eqb_eq; exact D|right; exact D].
 Qed.
 Print Assumptions C07_load_order_respects_deps.
+
+(* a reference that resolves is bound to an object of the referenced library carrying the
+   referenced id; two references to the same id are bound to the identical object; with unique
+   ids it is THE library object with that id, and it stays so while the libraries grow *)
+Theorem C07_resolve_identity :
+  (forall o r u, resolve o r = Ok u -> In (u, r_id r) (lib_list o (r_lib r))) /\
+  (forall o r1 r2 u1 u2, resolve o r1 = Ok u1 -> resolve o r2 = Ok u2 ->
+                         r_lib r1 = r_lib r2 -> r_id r1 = r_id r2 -> u1 = u2) /\
+  (forall o r u, r_hash r = true -> NoDup (map oid (lib_list o (r_lib r))) ->
+                 In (u, r_id r) (lib_list o (r_lib r)) -> resolve o r = Ok u) /\
+  (forall o o' r u, resolve o r = Ok u -> (forall v, ~ In (v, r_id r) (lib_list o' (r_lib r))) ->
+                    resolve (o ++ o') r = Ok u).
+Proof.
+  split; [exact resolve_ok_in|]. split; [exact resolve_same|]. split; [exact resolve_the_object|exact resolve_stable].
+Qed.
+Print Assumptions C07_resolve_identity.
+
+(* the result does not depend on where the libraries stand among the root's children: it is a
+   function of "the libraries of each kind, in document order" - in particular it is invariant
+   under every permutation of the root's children when each kind occurs once *)
+Theorem C07_library_permutation_invariant :
+  (forall mk d1 d2, (forall k, contents_of d1 k = contents_of d2 k) -> load_doc mk d1 = load_doc mk d2) /\
+  (forall mk d1 d2, Permutation d1 d2 -> NoDup (map fst d1) -> load_doc mk d1 = load_doc mk d2).
+Proof.
+  split; [exact load_doc_contents|].
+  intros mk d1 d2 P Hnd. apply load_doc_contents. apply contents_perm; assumption.
+Qed.
+Print Assumptions C07_library_permutation_invariant.
+
+(* the retry loop never runs out of fuel (pending count + 1 passes): loading always terminates,
+   for every document, cyclic or not *)
+Theorem C07_retry_fuel_suffices :
+  (forall mk sc o nodes loaded errs, load_group mk sc o nodes loaded errs <> NOutOfFuel) /\
+  (forall mk d, load_doc mk d <> DOutOfFuel).
+Proof. split; [exact load_group_fuel|exact load_doc_fuel]. Qed.
+Print Assumptions C07_retry_fuel_suffices.
+
+(* self- and mutually-referential instance_nodes, and instance_nodes of an undefined id: let T be
+   a set of ids that no library node loaded so far carries, such that every node of the group
+   whose id is in T instantiates (with a well-formed url) some id of T.  Then the loop terminates,
+   none of those nodes is ever loaded, all of them are left over, and each leftover is reported as
+   a DaeBrokenRefError - which aborts the load unless masked.
+     self reference   a -> a        : T = {a}
+     mutual           a -> b -> a   : T = {a, b}
+     dangling         a -> nosuch   : T = {nosuch, a} *)
+Theorem C07_cycle_is_error :
+  forall mk sc o (T : ident -> Prop) nodes loaded errs,
+    (forall u t, T t -> ~ In (u, t) (lib_list o LNodes)) ->
+    (forall n, In n nodes -> T (n_id n) -> exists t, In (NNode t true) (n_children n) /\ T t) ->
+    (forall ln, In ln loaded -> ~ T (snd (fst ln))) ->
+    load_group mk sc o nodes loaded errs <> NOutOfFuel /\
+    forall l left e, load_group mk sc o nodes loaded errs = NFinished l left e ->
+      (forall ln, In ln l -> ~ T (snd (fst ln))) /\
+      (forall n, In n nodes -> T (n_id n) -> In n left) /\
+      ((exists n, In n nodes /\ T (n_id n)) ->
+         In DaeBrokenRef (fst (report_leftovers mk left e)) /\
+         (masked mk DaeBrokenRef = false -> snd (report_leftovers mk left e) = Some DaeBrokenRef)).
+Proof.
+  intros mk sc o T nodes loaded errs Hlib Hb Hc. split; [apply load_group_fuel|].
+  intros l left e H.
+  destruct (load_group_blocked mk sc o T Hlib nodes loaded errs l left e Hb Hc H) as [A B].
+  split; [exact A|]. split; [exact B|].
+  intros [n [Hin HT]]. apply report_leftovers_brokenref.
+  intro E. pose proof (B n Hin HT) as Hl. rewrite E in Hl. exact Hl.
+Qed.
+Print Assumptions C07_cycle_is_error.
+
+(* a dangling reference (well-formed, id carried by no object of that library) is a
+   DaeBrokenRefError and is never bound; a reference without '#' raises the class documented
+   for its site before any look-up *)
+Theorem C07_dangling_is_brokenref :
+  (forall o r, r_hash r = true -> (forall u, ~ In (u, r_id r) (lib_list o (r_lib r))) ->
+               resolve o r = Raise DaeBrokenRef) /\
+  (forall o r x, r_hash r = false -> nohash_exn (r_site r) = Some x -> resolve o r = Raise x).
+Proof. split; [exact resolve_dangling|exact resolve_nohash]. Qed.
+Print Assumptions C07_dangling_is_brokenref.
+
+(* on save every reference is written as '#' + the current id of the object it is bound to, and
+   in the written library (its members under their current ids, which are distinct) that url
+   resolves to the very object *)
+Theorem C07_saved_refs_resolve :
+  forall l (current_id : uid -> ident) members u,
+    In u members -> NoDup (map current_id members) ->
+    r_hash (saved_ref l current_id u) = true /\ r_id (saved_ref l current_id u) = current_id u /\
+    resolve (written_lib l current_id members) (saved_ref l current_id u) = Ok u.
+Proof.
+  intros l cid members u Hin Hnd. split; [reflexivity|]. split; [reflexivity|].
+  apply saved_ref_resolves; assumption.
+Qed.
+Print Assumptions C07_saved_refs_resolve.
+
+(* ---- Non-vacuity.  Libraries in reverse order of their dependencies, library nodes defined
+   before the nodes they instantiate (a -> b -> c, a nested forward reference), a material and a
+   geometry instance: everything loads, every reference bound to the object with that id. *)
+Definition ex_doc : doc :=
+  [ (LDefaultScene, CDefault (Ref LScenes 30 true SUrl));
+    (LScenes, CScenes [Scene 300 30 [TNode 301 31 [NNode 21 true; NInst (Ref LGeometry 10 true SUrl) [Ref LMaterials 12 true SUrl]]]]);
+    (LNodes, CNodes [TNode 201 21 [NNode 22 true]; TNode 202 22 [NNode 23 true; NInst (Ref LGeometry 10 true SUrl) []];
+                     TNode 203 23 []]);
+    (LMaterials, CItems [Item 120 12 [Ref LEffects 11 true SUrl]]);
+    (LGeometry, CItems [Item 100 10 []]);
+    (LEffects, CItems [Item 110 11 []]) ]%N.
+
+Example C07_forward_references_load :
+  match load_doc [] ex_doc with
+  | Done s => st_errs s = [] /\
+              st_nodes s = [(203, 23, []); (202, 22, [BNode 203; BInst 100 []]); (201, 21, [BNode 202])]%N /\
+              st_scenes s = [(300, 30, [(301, 31, [BNode 201; BInst 100 [120]])])]%N /\
+              st_default s = Some 300%N /\
+              st_items s = [(LEffects, (110, 11, [])); (LMaterials, (120, 12, [110])); (LGeometry, (100, 10, []))]%N
+  | _ => False
+  end.
+Proof. vm_compute. repeat split; reflexivity. Qed.
+
+(* a self reference, a mutual reference and a dangling one: the load ends with DaeBrokenRefError,
+   and with that class ignored the acyclic node still loads *)
+Definition ex_cyc : doc :=
+  [ (LNodes, CNodes [TNode 1 11 [NNode 11 true]; TNode 2 12 [NNode 13 true]; TNode 3 13 [NNode 12 true];
+                     TNode 4 14 [NNode 99 true]; TNode 5 15 []]) ]%N.
+
+Example C07_cycles_end_in_brokenref :
+  (match load_doc [] ex_cyc with Aborted s x => x = DaeBrokenRef /\ st_errs s = [DaeBrokenRef] | _ => False end) /\
+  (match load_doc [MCls K_DaeBrokenRefError] ex_cyc with
+   | Done s => st_nodes s = [(5, 15, [])]%N /\ st_errs s = [DaeBrokenRef; DaeBrokenRef; DaeBrokenRef; DaeBrokenRef]
+   | _ => False end).
+Proof. vm_compute. repeat split; reflexivity. Qed.
+
+(* the hypotheses of C07_cycle_is_error are met by the mutual reference above *)
+Example C07_cycle_hypotheses_met :
+  let T := fun t : ident => t = 12%N \/ t = 13%N in
+  let nodes := [TNode 2 12 [NNode 13 true]; TNode 3 13 [NNode 12 true]; TNode 5 15 []]%N in
+  (forall n, In n nodes -> T (n_id n) -> exists t, In (NNode t true) (n_children n) /\ T t) /\
+  (exists n, In n nodes /\ T (n_id n)).
+Proof.
+  simpl. split.
+  - intros n [<-|[<-|[<-|[]]]] HT; simpl in *.
+    + exists 13%N. split; [left; reflexivity|right; reflexivity].
+    + exists 12%N. split; [left; reflexivity|left; reflexivity].
+    + destruct HT as [HT|HT]; discriminate.
+  - eexists. split; [left; reflexivity|left; reflexivity].
+Qed.
